@@ -126,7 +126,12 @@ let handle toks =
              | Robust_ext.Ok l when path <> "stdio" -> cls (Robust_ext.mapped_data_page ck r l has_levels)
              | _ -> "-") in
            (cls s, view) in
-         if hasdict = 1 then begin
+         (* a chunk without dictionary_page_offset whose first page identifies itself as a dictionary page *)
+         let self_dict = hasdict <> 1 && (match Robust_ext.load (hdr_of h1) ck p Robust_ext.FirstDataPage f dataoff with
+             | Robust_ext.Ok l -> int_of_z l.Robust_ext.ld_header.Robust_ext.ph_type = 2
+             | _ -> false) in
+         let dictoff = if self_dict then dataoff else dictoff in
+         if hasdict = 1 || self_dict then begin
            let s1 = Robust_ext.load (hdr_of h1) ck p Robust_ext.DictPage f dictoff in
            match s1 with
            | Robust_ext.Ok l1 ->
@@ -138,7 +143,9 @@ let handle toks =
                Printf.sprintf "first=OK dict=%s second=%s view=%s" dict s2 view
            | _ -> Printf.sprintf "first=%s dict=- second=- view=-" (cls s1)
          end else begin
+           let s0 = Robust_ext.load (hdr_of h1) ck p Robust_ext.FirstDataPage f dataoff in
            let (s1, view) = data_stage h1 dataoff in
+           ignore s0;
            Printf.sprintf "first=%s dict=- second=- view=%s" s1 view
          end
        | _ -> "RUNNER-ERROR bad-firstload")
